@@ -90,6 +90,7 @@ const UNKNOWN_TRAITS: &[&str] = &[
     "Z\u{e4}hlung", "\u{c4}pfell", "Add\u{c4}ssign", "\u{540d}Clone", "\u{6f14}\u{7b97}\u{5b50}X", "Gr\u{f6}\u{df}e",
     "\u{c4}Assign", "\u{52a0}Assign", "\u{dc}n\u{ef}c\u{f6}d\u{e9}", "\u{52a0}\u{6cd5}\u{904b}\u{7b97}", "Clon\u{e9}", "\u{e9}Clone",
     "A\u{e9}", "Ab\u{e9}", "Abc\u{e9}", "Abcd\u{e9}", "Abcde\u{e9}", "\u{e9}A", "\u{e9}Ab", "\u{e9}Abc", "\u{e9}Abcd", "\u{e9}Abcde",
+    "\"a\\\"b\"", "'\\''", "\"{}\"", "\"{0}\"", "\"\\n\"", "\"%s\"", "r#\"\"\"#", "Clone\u{301}", "/** doc */ Clone",
     "::core::clone::Clone", "std::ops::Add", "core::ops::AddAssign", "Clone<T>", "Add::<u8>", "crate::Add", "self::Clone", "Clone::Clone",
     "<T as Tr>::Clone", "Clone!", "&Clone", "dyn Clone", "?Sized", "'a", "1", "\"Clone\"", "Clone = 1", "Clone: Copy", "Clone + Copy", "(Clone)", "[Clone]", "{Clone}",
     "\u{10400}A", "A\u{10400}", "Ab\u{10400}cdef", "\u{1e9e}Assign", "Ord\u{e9}", "Partial\u{e9}q", "Deref\u{e9}Mut",
@@ -241,6 +242,8 @@ pub const TYPES: &[&str] = &[
     // newer or unstable syntax that syn keeps as verbatim / special nodes
     "impl Tr + use<>", "pattern_type!(u32 is 1..)",
     "Box<dyn Tr<A: Copy>>", "impl Tr<A = impl Copy>", "X<{ const { 1 } }>", "&'static mut dyn for<'x> Tr<'x, Out = &'x T>",
+    "X<N>", "X<-1>", "X<{ -1 }>", "X<'static, T>", "for<'a> fn(&'a T) -> &'a T", "dyn for<'a> Tr<'a, T>", "T<u8>", "N", "Self::Assoc", "Self::T",
+    "Tr<T>", "m![T; N]", "m! { T }", "::X<T>", "X::<T>", "&'a X<'a, &'a T>", "[[T; N]; N]", "(T,)", "((T,), (U,))",
     "extern \"C\" fn(u8, ...) -> u8", "unsafe extern \"C-unwind\" fn()", "<T>::Assoc", "<<T as A>::B as C>::D", "T::A::B", "crate::X", "super::X<T>", "self::X",
 ];
 const TYPE_WRAPS: &[&str] = &[
